@@ -319,7 +319,7 @@ def day_pairs():
 def obligations(tier, seed):
     q = tier == 'quick'
     obs = []
-    to = 200 if q else 1200
+    to = 270 if q else 1200
     combos = [('totals-a', 'L1', ['utilities']), ('totals-b', 'L2', ['Income']), ('totals-b', 'L1', []), ('payments-a', 'L1', ['utilities']), ('payments-a', 'L2', []),
               ('totals-a', 'L3', ['mixed']), ('payments-a', 'L3', ['mixed']), ('payments-b', 'L1', ['x']), ('payments-b', 'L2', ['investment']), ('text', 'L1', ['Transfer', 'x']), ('text', 'L2', ['recurring']),
               ('chain', 'L1', ['utilities']), ('totals-b', 'L4', ['x']), ('payments-a', 'L4', [])]
